@@ -29,8 +29,8 @@ MAbs          == d' = DAbs(d)                    /\ out' = <<"dur", d'>>
 MMulI(q)      == d' = DMulI(d, q)                /\ out' = <<"dur", d'>>
 MDivI(q)      == q # Z /\ d' = DDivI(d, q)       /\ out' = <<"dur", d'>>
 MFloor(s)     == d' = Floor(d, s)                /\ out' = <<"dur", d'>>
-MCeil(s)      == d' = Ceil(d, s)                 /\ out' = <<"dur", d'>>
-MRound(s)     == d' = Round(d, s)                /\ out' = <<"dur", d'>>
+MCeil(s)      == d' \in CeilSet(d, s)            /\ out' = <<"dur", d'>>
+MRound(s)     == d' \in RoundSet(d, s)           /\ out' = <<"dur", d'>>
 (* observers leave the register alone *)
 MParts        == UNCHANGED d /\ out' = <<"parts", Parts(d)>>
 MTotal        == UNCHANGED d /\ out' = <<"int", d>>
